@@ -1,5 +1,6 @@
 (* C15 - A topic's size limit is enforced as configured. *)
-From IggyV Require Import Base.Tactics Base.ListX Model.Part Model.PartSpec Proofs.PartBasics.
+From IggyV Require Import Base.Tactics Base.ListX Model.Part Model.PartSpec Proofs.PartBasics Proofs.PartHistory Proofs.PartCounts Proofs.CacheHistory Proofs.OffsetsHistory
+  Proofs.ReadExact Proofs.ReadPart Proofs.ReadHistory Proofs.ExpiryBasics Proofs.ExpiryHistory.
 Open Scope N_scope.
 
 (* refused exactly when the topic has a size limit, is at or above it, and oldest-segment deletion is disabled *)
@@ -16,6 +17,28 @@ Proof. exact gate_no_change. Qed.
 Theorem C15_offsets_increase : forall c now p, p_cur (maintain c now p) = p_cur p /\ p_inc (maintain c now p) = p_inc p.
 Proof. exact maintain_cur. Qed.
 
+(* PROVED, history level (every operation list; side conditions of ExpiryHistory.history_E0): in every reachable state the
+   size-based part of a maintenance pass (no message expiry in force) removes either nothing, or EXACTLY the messages of the
+   partition's oldest segment - and then that segment is closed, the topic has a size limit with oldest-segment deletion enabled
+   and is almost full.  What remains is the rest of the log, untouched and in order; the next offset does not move. *)
+Theorem C15_size_pass_history : forall ops c t0 now, 0 < c_seg c -> times_ok 0 ops -> Forall bounds_ok (prun_states (c, part_new c t0) ops) ->
+  let c' := fst (pfinal (c, part_new c t0) ops) in let p := snd (pfinal (c, part_new c t0) ops) in
+  c_expiry c' = None ->
+  abase (maintain c' now p) = abase p /\
+  (maintain c' now p = p \/
+   exists s r mx, p_segs p = s :: r /\ s_closed s = true /\ c_max c' = Some mx /\ c_del_oldest c' = true /\ almost_full c' p = true /\
+                  part_all p = seg_all s ++ part_all (maintain c' now p)).
+Proof.
+  intros ops c t0 now Hseg Ht Hb. cbn zeta. intros Hexp. destruct (history_E0 ops c t0 Hseg Ht Hb) as [HE _]. pose proof (E_J _ _ _ HE) as HJ.
+  set (c' := fst (pfinal (c, part_new c t0) ops)) in *. set (p := snd (pfinal (c, part_new c t0) ops)) in *.
+  split; [destruct (maintain_cur c' now p) as [A B]; unfold abase; rewrite A, B; reflexivity|].
+  unfold maintain. rewrite Hexp. destruct (c_max c') as [mx|] eqn:Em; [|left; reflexivity].
+  destruct (c_del_oldest c') eqn:Ed; cbn [negb]; [|left; reflexivity]. destruct (almost_full c' p) eqn:Ea; cbn [negb]; [|left; reflexivity].
+  destruct (p_segs p) as [|s r] eqn:Es; [left; reflexivity|]. destruct (s_closed s) eqn:Ec; [|left; reflexivity].
+  right. exists s, r, mx. repeat split; try reflexivity; try assumption. apply (remove_first_all p now s r HJ Es Ec).
+Qed.
+
 Print Assumptions C15_gate.
 Print Assumptions C15_refusal_no_change.
 Print Assumptions C15_offsets_increase.
+Print Assumptions C15_size_pass_history.
